@@ -4,6 +4,11 @@ import json, os
 V = os.path.dirname(os.path.dirname(os.path.abspath(__file__)))
 props = [json.loads(l) for l in open(os.path.join(V, 'properties.jsonl'))]
 CHECKS = {
+ 'C11': dict(
+   text="Coq proofs, for all inputs: encode_utf8 followed by decode_utf8 is the identity on every code point below 2^21 and the encoder equals the RFC 3629 table; the decoder rejects lone/missing continuation bytes; UTF-16 units are one unit (BMP) or a surrogate pair in the right ranges that decodes back; the identifier tables regenerated from unicode.c denote exactly Annex D.1/D.2 for every 32-bit value (breakpoint theorem + vm_compute sweep over the regenerated table); the shift ladder of convert_pp_int equals C11 6.4.4.1p5 first-fit for every base class, suffix class and value < 2^64. Tie: translator for the tables; unicode.c linked unmodified and compared with the extracted model on every code point < 2^21 and every identifier class < 0x110400 (exhaustive); generated programs for all bases x 23 suffix spellings x thresholds (types from the proved spec), string/char literals, concatenation, UCNs, BOM/CRLF/splices (gcc as reference).",
+   note="Trusted: Coq kernel, no axioms; tools/gen_unicode.py; extraction + modelrun; harness/unicode_h.c; gcc 12 as reference for escapes/concatenation/UCN spelling. Modelled: suffix spelling parser, escape reader, strtoul are not proved (covered by generated programs only); floating literals are C02's.",
+   technique="Coq proofs (codec round trip, interval-breakpoint theorem, case analysis with lia) + table translator + exhaustive unit correspondence + generated literal programs",
+   design="5.C11"),
  'C17': dict(
    text="Coq proof that the model of hashmap.c (probe loop, tombstones, rehash, load-factor arithmetic, C int overflow and both aborting sites as explicit Crash) refines a dictionary for every history of put/get/delete with any keys and collisions (hash function is a parameter), never aborts, and keeps its invariant across growth; constants regenerated from hashmap.c and their side conditions re-proved on every run; the model is tied to the code by running hashmap.c (linked unmodified into a harness) and the extracted model on the same histories and comparing the whole bucket array slot for slot, plus #define/#undef/-D/-U histories through chibicc -E against the dictionary.",
    note="Trusted: Coq 8.16.1 kernel (vm_compute, no native_compute), no axioms (Print Assumptions: closed under the global context); translator tools/gen_hashmap.py; extraction (ExtrOcamlBasic only) + ocaml/modelrun.ml; harness/hashmap_h.c. Modelled, not verified: the C code itself (hand-written model, correspondence-checked); C int overflow excluded by the hypothesis length(history)*100 < 2^30; scope/keyword/include tables use the same hashmap.c code and are covered through it.",
